@@ -801,6 +801,12 @@ class RefQuals:
             return show_pairs(self.items())
         if n == "riter":
             return show_pairs(list(reversed(self.items())))
+        if n == "ends":
+            its, out, front = self.items(), [], True
+            while its:
+                out.append(its.pop(0) if front else its.pop())
+                front = not front
+            return show_pairs(out)
         if n == "imut":
             x = u(1)
             self.m = {k: v + x for k, v in self.m.items()}
